@@ -1,6 +1,6 @@
 CONSTANTS MaxAtom = 3
  Objs = {o1}
- Depth = 100
+ Depth = 10
  FlushOnDelete = TRUE
  FlushOnCommit = TRUE
  ResetChangedOnAbort = TRUE
